@@ -1420,8 +1420,15 @@ def _fetch_case(E, mode, q, name, expect_cas, with_expire, had_sock, keyv, kcons
             E.oblige("%s/post@raise(Exception:Sync-or-closed)%s" % (sid, E.case_suffix), s, goal, func=q, meta={"raised": o.val.cls, "site": str(o.site)})
             if o.val.cls == "MemcacheIllegalInputError":
                 E.oblige("%s/post@raise(input-error:nothing-sent)%s" % (wid, E.case_suffix), s, z3.BoolVal(not sent and s.ghost.get("connects", 0) == 0), func=q)
-            E.oblige("%s/post@raise(never-with-ignore_exc-once-the-exchange-started)%s" % (pid(E, "miss", q), E.case_suffix), s,
-                     z3.Or(z3.Not(f["ignore_exc"].t), z3.BoolVal(before_io)), func=q, meta={"raised": o.val.cls})
+            # C07: with ignore_exc no server or network failure escapes - not from connecting either; what may escape is the rejection
+            # of the caller's input, and that is raised before any I/O (so it is never a server failure in disguise)
+            is_input = o.val.cls == "MemcacheIllegalInputError"
+            E.oblige("%s/post@raise(with-ignore_exc-only-an-input-error-escapes,and-only-before-any-I/O)%s" % (pid(E, "miss", q), E.case_suffix), s,
+                     z3.Or(z3.Not(f["ignore_exc"].t), z3.BoolVal(bool(is_input and before_io and s.ghost.get("connects", 0) == 0))), func=q,
+                     meta={"raised": o.val.cls})
+            if is_input:
+                E.oblige("%s/post@raise(an-input-error-is-raised-before-any-I/O)%s" % (pid(E, "miss", q), E.case_suffix), s,
+                         z3.BoolVal(bool(before_io and s.ghost.get("connects", 0) == 0)), func=q)
         else:
             E.oblige("%s/post@raise(BaseException:Sync)%s" % (sid, E.case_suffix), s, sync(E, s, me), func=q, meta={"raised": o.val.cls})
 
@@ -1629,11 +1636,11 @@ def verify_public_store(E, mode="exception"):
                 E.case_suffix = "/%s,%s" % (nlabel, flabel)
                 st = State()
                 set_faults(st, mode)
-                me, sock0 = mk_client(st, True)
+                me, sock0 = mk_client(st, True, encoding=("utf-8" if (meth == "cas" and flabel != "flags=None") else "ascii"))
                 f = st.heap[me.ref]
                 st.ghost["store_calls"] = []
                 key, value, expire = OpaqueV(z3.Const("arg_key", Py)), OpaqueV(z3.Const("arg_value", Py)), OpaqueV(z3.Const("arg_expire", Py))
-                casv = BytesV(z3.String("cas_arg"))
+                casv = BytesV(z3.String("cas_arg")) if flabel == "flags=None" else StrV(z3.String("cas_arg"))     # the token as bytes / as str
                 args = [key, value] + ([casv] if meth == "cas" else [])
                 kwargs = {"expire": expire, "noreply": nrv, "flags": flv}
                 nr_eff = (f["default_noreply"].t if nrdef == "client" else z3.BoolVal(False)) if isinstance(nrv, NoneV) else nrv.t
@@ -1654,7 +1661,8 @@ def verify_public_store(E, mode="exception"):
                     fwd = [z3.BoolVal(bool(verb_ok and len(calls) == 1 and len(ent) == 1 and ent[0][0] is key and ent[0][1] is value)),
                            z3.BoolVal(c["expire"] is expire), z3.BoolVal(c.get("flags") is flv or (isinstance(flv, NoneV) and isinstance(c.get("flags"), NoneV)))]
                     if meth == "cas":
-                        fwd.append(z3.And(c["cas"].t == casv.t, z3.InRe(casv.t, DIGITS)) if isinstance(c.get("cas"), BytesV) else z3.BoolVal(False))
+                        # what reaches the wire is the caller's token, and it is ASCII decimal digits - also for a str token under utf-8 / latin-1
+                        fwd.append(z3.And(c["cas"].t == casv.t, z3.InRe(c["cas"].t, DIGITS)) if isinstance(c.get("cas"), BytesV) else z3.BoolVal(False))
                     E.oblige("%s/one-%s-command-with-the-callers-key-value-expire-flags%s%s" % (wid, meth, "-and-a-decimal-cas-token" if meth == "cas" else "", E.case_suffix),
                              s, z3.And(fwd), func=q)
                     E.oblige("%s/waits-for-a-reply-iff-it-did-not-ask-for-noreply(documented-default)%s" % (sid, E.case_suffix), s, nrp == nr_eff, func=q)
@@ -2035,6 +2043,10 @@ def _fetch_many_case(E, mode, q, name, expect_cas, oneshot):
             before_io = not sent and s.ghost.get("reads", 0) == 0
             goal = sync(E, s, me) if before_io else z3.BoolVal(isinstance(cur, NoneV) and closed_all(s, sock0))
             E.oblige("%s/post@raise(Exception:Sync-or-closed)%s" % (sid, E.case_suffix), s, goal, func=q, meta={"raised": o.val.cls})
+            is_input = o.val.cls == "MemcacheIllegalInputError"
+            E.oblige("%s/post@raise(with-ignore_exc-only-an-input-error-escapes,and-only-before-any-I/O)%s" % (pid(E, "miss", q), E.case_suffix), s,
+                     z3.Or(z3.Not(f["ignore_exc"].t), z3.BoolVal(bool(is_input and before_io and s.ghost.get("connects", 0) == 0))), func=q,
+                     meta={"raised": o.val.cls})
             if o.val.cls == "KeyError":
                 # the server only returns requested keys: the remapping must find each of them
                 E.oblige("%s/post@raise(no-KeyError-for-a-requested-key:the-caller's-collection-is-remapped-completely)%s" % (rt, E.case_suffix), s,
